@@ -72,7 +72,7 @@ def plan(tier, seed):
 def _handler_for(data):
     """ERR_LOG handlers: one returning nothing, one returning something true (a
     running count, the error itself): what a handler returns is its own business."""
-    return _noop if len(data) % 2 else _echo
+    return S.handler_returning(len(data))
 
 
 def _echo(err):
